@@ -3,6 +3,7 @@ package format
 
 import (
 	"archive/zip"
+	"encoding/xml"
 	"io"
 	"path/filepath"
 	"strings"
@@ -225,6 +226,14 @@ func detectZIPFormat(r io.ReaderAt, size int64) (Format, error) {
 	}
 
 	// Check for Office Open XML markers
+	// OOXML: the package relationships name the main document part. Prefer that
+	// over guessing from directory names, so that the answer does not depend on
+	// the order of the archive members or on stray parts of other formats
+	// (an unreferenced word/ entry inside a workbook, xl/ inside a document).
+	if f := ooxmlMainPartFormat(zr); f != Unknown {
+		return f, nil
+	}
+
 	for _, f := range zr.File {
 		switch {
 		case f.Name == "[Content_Types].xml":
@@ -240,4 +249,48 @@ func detectZIPFormat(r io.ReaderAt, size int64) (Format, error) {
 	}
 
 	return Unknown, nil
+}
+
+// ooxmlMainPartFormat reads _rels/.rels and maps the target of the
+// officeDocument relationship to a format. Returns Unknown if the package has no
+// such relationship.
+func ooxmlMainPartFormat(zr *zip.Reader) Format {
+	for _, f := range zr.File {
+		if f.Name != "_rels/.rels" {
+			continue
+		}
+		rc, err := f.Open()
+		if err != nil {
+			return Unknown
+		}
+		data, err := io.ReadAll(io.LimitReader(rc, 1<<20))
+		rc.Close()
+		if err != nil {
+			return Unknown
+		}
+		var rels struct {
+			Relationship []struct {
+				Type   string `xml:"Type,attr"`
+				Target string `xml:"Target,attr"`
+			} `xml:"Relationship"`
+		}
+		if err := xml.Unmarshal(data, &rels); err != nil {
+			return Unknown
+		}
+		for _, rel := range rels.Relationship {
+			if !strings.HasSuffix(rel.Type, "/officeDocument") {
+				continue
+			}
+			target := strings.TrimPrefix(rel.Target, "/")
+			switch {
+			case strings.HasPrefix(target, "word/"):
+				return DOCX
+			case strings.HasPrefix(target, "xl/"):
+				return XLSX
+			case strings.HasPrefix(target, "ppt/"):
+				return PPTX
+			}
+		}
+	}
+	return Unknown
 }
